@@ -221,6 +221,9 @@ func genCleanScenarios(g *fgen, n int, apis []string, modes []string, opt cleanG
 			// the same program again: Clean must change nothing more
 			sc.Procs = append(sc.Procs, &Proc{Spec: spec, Real: true, Tests: q.tests(), Clean: &CleanDef{Sort: srt}, State: "call"})
 		}
+		if opt.ciReplay {
+			sc.Procs = append(sc.Procs, &Proc{Spec: procSpec("ci"), Real: true, Tests: q.tests(), State: "call"})
+		}
 		names := p.names()
 		for _, x := range q.names() {
 			found := false
@@ -247,6 +250,7 @@ type cleanGenOpts struct {
 	sortProb, againProb       float64
 	counts                    bool
 	skipProb, parProb, badProb float64
+	ciReplay                  bool // append a read-only CI run of the same program (no Clean)
 }
 
 func rootNames(p *rprogram) []string {
